@@ -300,6 +300,32 @@ open_("F-C20-long", "C20",
       {"x": 9007199254740992.0, "code": "#", "locale": "es", "expected": "9007199254740990", "tie": False, "class": "long-hash"},
       patterns=[{"check": "format-text", "keys": ["long-hash", "long-int0", "long-int00", "long-grouped", "long-percent"], "cats": ["*"]}])
 
+# ---------------------------------------------------------------- C09
+FORMS = ["display", "internal", "xlsx"]
+fixed("FX-C09-parentheses", "C09", "0bfc848",
+      "(1&2)+3 was printed as 1&2+3, which parses to 1&(2+3)",
+      {"text": "(1&2)+3", "language": "en", "locale": "en"})
+fixed("FX-C09-percent", "C09", "0bfc848",
+      "(1+2)% was printed as 1+2%",
+      {"text": "(1+2)%", "language": "en", "locale": "en"})
+fixed("FX-C09-unary-compare", "C09", "0bfc848",
+      "-(1<2) was printed as -1<2",
+      {"text": "-(1<2)", "language": "en", "locale": "en"})
+fixed("FX-C09-localized-errors", "C09", "11a92f1",
+      "error literals were displayed in English in every language, so (#¡VALOR!=1)=2 shown in Spanish did not parse back",
+      {"text": "(#¡VALOR!=1)=2", "language": "es", "locale": "es"})
+fixed("FX-C09-rangeop-left-reference", "C09", "68f1250",
+      "the range operator printed (@B2):(1<>2) as @B2:(1<>2), which the lexer cannot read",
+      {"text": "(@B2):(1<>2)", "language": "en", "locale": "en"})
+open_("F-C09-plus-right", "C09",
+      "x+(y+z) and x+(y-z) are printed without the parentheses (an existing test pins 1+(3+5) -> 1+3+5), so the tree that is read back associates to the left",
+      {"text": "1+(3+5)", "language": "en", "locale": "en", "sig": "display|+>+:R|+(num,+)"},
+      patterns=[{"check": f, "keys": ["+>+:R", "+>-:R"], "cats": ["*"]} for f in FORMS])
+open_("F-C09-rangeop-lexer", "C09",
+      "a range-operator node whose left side is @ of a missing-sheet reference or of a number (or whose right side is itself a range operation) prints to a text the lexer reads as a range token and rejects, e.g. (@Ghost!A1):SUM(A1:A3,7) -> @Ghost!A1:SUM(A1:A3,7)",
+      {"text": "(@Ghost!A1):SUM(A1:A3,7)", "language": "en", "locale": "en", "sig": "display|rangeop>at:L|rangeop(at,call)"},
+      patterns=[{"check": f, "keys": ["rangeop>at:L", "rangeop>rangeop:R"], "cats": ["*"]} for f in FORMS])
+
 def main():
     os.makedirs(os.path.join(HERE, "findings"), exist_ok=True)
     out = []
